@@ -105,6 +105,11 @@ def expected_emits(acts, in_port, ln):
         elif a[0] == 1 and a[1] != 3: raise ValueError("action outside the buffer alphabet")
     return out
 
+def blind_rel(outs):
+    """releases as seen from the ports only (buffer store not observable): those which send something, without slot and frame"""
+    outs = [rel_view(o) if o["k"] == "rel" and "acts" in o else o for o in outs]
+    return [{"k": "rel", "id": None, "emits": o["emits"]} if o["k"] == "rel" else o for o in outs if o["k"] != "rel" or o["emits"]]
+
 def rel_view(o):
     """a `release` of the model / the specification, as the harness observes it on the real switch"""
     return {"k": "rel", "id": o["id"], "len": o["len"], "port": o["port"], "emits": expected_emits(o["acts"], o["port"], o["len"])}
@@ -390,7 +395,10 @@ class C04(Check):
                     "Spec/OF10Table.lean: hand transcription of OpenFlow 1.0 §4.6 (flow-mod commands), §4.7 (timeouts, flow-removed), §5.3.3 (buffer_id), §5.3.5 (flow/aggregate stats); its "
                     "Python twin in harness/c04.py is cross-checked against it on every case",
                     "harness/swnet.py + poxenv.clock (virtual time.time in multiples of 1/8 s, exact in binary64); frames' header tuples read off the real parsed packet (C03's phdr_of)",
-                    "code-variant probe (harness/c04.py probe_variant): the model's Cfg is chosen from the real switch's behaviour on the three witness inputs; the oracle does not depend on it"]
+                    "code-variant probe (harness/c04.py probe_variant): the model's Cfg (all seven flags) is chosen from the real switch's behaviour on witness inputs; C03's source-shape "
+                    "detection is recorded as a cross-check only; the oracle does not depend on either",
+                    "observation uses public attributes (table.entries, entry fields, match attributes) and the wire; the one private read (the switch's buffer list) degrades to wire-only "
+                    "observation when its shape is not the expected one"]
     assumptions = ["sweeps are explicit events (`FlowTable.remove_expired_entries()` called under the virtual clock); the recoco Timer that calls it every 2 s in ExpireMixin is not started",
                    "a released buffer is observed through the frames the switch emits; flow-mods that name a buffer carry only outputs to physical ports / strip_vlan (what actions do to a frame is C12, "
                    "re-buffering through output:CONTROLLER is C18)",
@@ -404,7 +412,11 @@ class C04(Check):
     rule = ("case = (max_entries, max_buffers, history over flow-mods {5 commands + unknown x 12 overlapping matches (two encodings of one flow, exact, nested/partially overlapping/disjoint prefixes) x "
             "3 priorities x flags SEND_FLOW_REM/CHECK_OVERLAP/EMERG x out_port filters x 7 action lists x idle/hard timeouts x buffer ids (live, used, unknown, 0)}, frames on ports (hits and buffered "
             "misses), clock advances in 1/8 s, sweeps, flow/aggregate stats requests); corpus = defect witnesses + all histories of length <= 3 over a 16-event alphabet + expiry-boundary / replace / "
-            "table-full / emergency / buffer / unknown-command / CIDR-overlap seeds; non-trivial = a flow-removed is written or the table holds >= 2 entries")
+            "table-full / emergency / buffer / unknown-command / CIDR-overlap seeds + the HARDENING.md families (same frame / same stats request twice with each kind of change in between; "
+            "earliest-deadline grid; flows sharing one action list; priorities 0/1/32767/32768/65534/65535, cookies 0/2^63/2^64-1, timeouts 1/65535 s, out_port 0 and virtual ports in filters and "
+            "actions; tables of capacity 0/1/3 exactly full; several flows expiring at one sweep for different reasons, both deadlines of one flow between two sweeps; several messages in ONE read "
+            "(`batch`)); case modes: `decoy` (a second switch in the same process gets the same events in reverse order, interleaved) and `no_data` (rx_packet without packet_data); "
+            "non-trivial = a flow-removed is written or the table holds >= 2 entries")
     coverage_cases = 400
 
     def setup(self):
@@ -419,7 +431,10 @@ class C04(Check):
             self.c03.pkt, self.c03.IPAddr, self.c03.EthAddr, self.c03.of = pkt, IPAddr, EthAddr, of
         self._frames = None
         self._ecn_case = False
+        self.pool_seen = True
         self.cfg = self.probe_variant()
+        # is the buffer store observable the way this harness knows?  (one miss must show as one occupied slot)
+        self.pool_seen = self.impl({"max": 1, "ops": [{"op": "pkt", "frame": self.frames()[3], "port": 3}]})["steps"][-1]["pool"] == [1]
 
     def probe_variant(self):
         """which of the proposed repairs C04-1/2/3 the tree under test has: the model mirrors the code *as it stands* (Cfg in
@@ -445,6 +460,7 @@ class C04(Check):
         return {"code_variant": dict(zip(["C04-1 strictMutual", "C04-2 maskUndefined", "C04-3 statsUnwire", "D37 arpLow8", "D38 prereqExact",
                                           "D26 exactSig", "D36 tosDscp"], self.cfg)),
                 "code_variant_decided_by": "behaviour of the real switch on witness inputs",
+                "buffer_store_observed": "slots of the switch's buffer list" if self.pool_seen else "from the wire only (unknown representation)",
                 "c03_variant_cross_check": {"c03": self.c03_says, "agrees": (self.c03_says[:3] == self.cfg[3:6]) if isinstance(self.c03_says, list) else None}}
 
     # ---------------------------------------------------------------- frames (real packet library)
@@ -505,7 +521,8 @@ class C04(Check):
         """apply one event to a switch node"""
         k = op["op"]
         if k == "fm": node.w._push_receive_data(flow_mod_bytes(op, xid))
-        elif k == "batch": node.w._push_receive_data(b"".join(flow_mod_bytes(o, xid + i) for i, o in enumerate(op["ops"])))   # ONE read
+        elif k == "batch":                                                                    # several messages in ONE read
+            node.w._push_receive_data(b"".join((flow_mod_bytes if o["op"] == "fm" else stats_req_bytes)(o, xid + i) for i, o in enumerate(op["ops"])))
         elif k in ("fstats", "astats"): node.w._push_receive_data(stats_req_bytes(op, xid))
         elif k == "pkt":
             fr = bytes.fromhex(op["frame"])
@@ -517,6 +534,15 @@ class C04(Check):
         elif k == "sweep": node.sw.table.remove_expired_entries()
         else: raise ValueError(k)
 
+    def pool_of(self, node):
+        """the buffer store, a private list of (packet, in_port) or None per slot; None when it no longer has the shape this harness
+        knows (then stored buffers are judged by what the wire shows only: ids in packet-ins, frames sent on release)"""
+        try:
+            b = node.sw._packet_buffer
+            if isinstance(b, list) and all(x is None or (isinstance(x, tuple) and len(x) == 2) for x in b): return list(b)
+        except Exception: pass
+        return None
+
     def impl(self, case):
         poxenv.clock.now = T0 / 1000.0
         node = self.swnet.SwitchNode(ports=4, max_entries=case["max"], max_buffers=case.get("bufs", 100))
@@ -527,13 +553,13 @@ class C04(Check):
         steps = []
         xid = 100
         for n_op, op in enumerate(case["ops"]):
-            if decoy and n_op < len(decoy_ops): self.drive(decoy, decoy_ops[n_op], 9000 + n_op, False)
             node.w.send_buf = b""
             node.emitted = []
-            before = list(node.sw._packet_buffer)
+            before = self.pool_of(node)
             st = "ok"
             try:
                 xid += 10
+                if decoy and n_op < len(decoy_ops): self.drive(decoy, decoy_ops[n_op], 9000 + 10 * n_op, False)
                 self.drive(node, op, xid, case.get("no_data", False))
             except Exception as e:
                 st = "raise:" + type(e).__name__
@@ -542,15 +568,20 @@ class C04(Check):
             try: outs = parse_out(bytes(node.w.send_buf))
             except Exception as e: outs = [{"k": "unparsable", "why": type(e).__name__}]
             # a buffer released by this step: its slot went from a stored (packet, in_port) to None; what was emitted meanwhile
-            after = node.sw._packet_buffer
-            freed = [i for i, b in enumerate(before) if b is not None and after[i] is None]
-            for i in freed:
-                pk, port = before[i]
-                outs.append({"k": "rel", "id": i + 1, "len": len(pk.pack()), "port": port, "emits": [[p, len(fr)] for p, fr in node.emitted]})
-            if not freed and node.emitted and op["op"] == "fm":
-                outs.append({"k": "emitted-without-release", "n": len(node.emitted)})
+            after = self.pool_of(node)
+            emits = [[p, len(fr)] for p, fr in node.emitted]
+            if before is None or after is None or len(after) < len(before):
+                after = None
+                if emits and op["op"] == "fm": outs.append({"k": "rel", "id": None, "emits": emits})     # seen from the ports only
+            else:
+                freed = [i for i, b in enumerate(before) if b is not None and after[i] is None]
+                for i in freed:
+                    pk, port = before[i]
+                    outs.append({"k": "rel", "id": i + 1, "len": len(pk.pack()), "port": port, "emits": emits})
+                if not freed and emits and op["op"] == "fm":
+                    outs.append({"k": "emitted-without-release", "n": len(emits)})
             steps.append({"st": st, "outs": outs, "table": [self.entry_view(e) for e in node.sw.table.entries],
-                          "pool": [0 if b is None else 1 for b in after]})
+                          "pool": None if after is None else [0 if b is None else 1 for b in after]})
         return {"steps": steps}
 
     # ---------------------------------------------------------------- model / spec through the driver
@@ -589,6 +620,7 @@ class C04(Check):
         if "error" in resp: return resp
         # a release is observed on the real switch through what it emits: translate the model's (frame, actions) accordingly
         model = [dict(st, outs=[rel_view(o) if o["k"] == "rel" else o for o in st["outs"]]) for st in resp["model"]]
+        if not self.pool_seen: model = [dict(st, outs=blind_rel(st["outs"]), pool=None) for st in model]
         return {"model": self.regroup(case, model, "table"), "spec": self.regroup(case, resp["spec"], "flows")}
 
     def impl_view(self, case, obs):
@@ -612,9 +644,10 @@ class C04(Check):
                     return n, "%s: entry %d differs from the specification's (prio/match/actions/cookie/flags/timeouts/clocks/counters)" % (where, i)
             eff = [g[1] for g in got]
             if any(a < b for a, b in zip(eff, eff[1:])): return n, "%s: table not sorted by effective priority" % where
-            if s["pool"] != sp["pool"]: return n, "%s: stored buffers %s, specification %s" % (where, s["pool"], sp["pool"])
+            if s["pool"] is not None and s["pool"] != sp["pool"]: return n, "%s: stored buffers %s, specification %s" % (where, s["pool"], sp["pool"])
             # messages: exactly the specification's, flow-removed matched on every field, its match up to encoding
             go, wo = s["outs"], sp["outs"]
+            if s["pool"] is None: wo = blind_rel(wo)   # buffer store not observable: a release shows by the frames it sends, and only then
             if len(go) != len(wo) or [o["k"] for o in go] != [o["k"] for o in wo]:
                 return n, "%s: messages %s, specification %s" % (where, [self._brief(o) for o in go], [self._brief(o) for o in wo])
             for g, w in zip(go, wo):
@@ -627,7 +660,7 @@ class C04(Check):
                     for a, b in zip(g["l"], w["l"]):
                         if a[1:] != b[1:] or not spec_identical(a[0], b[0]): return n, "%s: flow-stats entry differs" % where
                 elif g["k"] == "rel":
-                    if g != rel_view(w): return n, "%s: buffer release %s, specification %s" % (where, g, rel_view(w))
+                    if g != (w if w.get("id", 0) is None else rel_view(w)): return n, "%s: buffer release %s, specification %s" % (where, g, rel_view(w))
                 elif g != w:
                     return n, "%s: message %s, specification %s" % (where, self._brief(g), self._brief(w))
         return None
@@ -663,6 +696,14 @@ class C04(Check):
 
     def shrink_candidates(self, case):
         ops = case["ops"]
+        for flag in ("decoy", "no_data"):
+            if case.get(flag):
+                c = copy.deepcopy(case); del c[flag]; yield c
+        for i, op in enumerate(ops):
+            if op["op"] == "batch":
+                c = copy.deepcopy(case); c["ops"][i:i + 1] = c["ops"][i]["ops"]; yield c
+                for j in range(len(op["ops"])):
+                    c = copy.deepcopy(case); del c["ops"][i]["ops"][j]; yield c
         for i in range(len(ops)):
             c = copy.deepcopy(case); del c["ops"][i]; yield c
         for i, op in enumerate(ops):
@@ -741,7 +782,91 @@ class C04(Check):
                                  fm(ADD, M_NET16_P1, 100, CHECK_OVERLAP, cookie=4), fm(ADD, M_DST16, 10, CHECK_OVERLAP, cookie=5), fm(ADD, M_EXACT, 100, CHECK_OVERLAP, cookie=6),
                                  fm(MODIFY, M_TCP80, 100, CHECK_OVERLAP, cookie=7), fm(MODIFY_STRICT, M_DST16, 100, CHECK_OVERLAP, cookie=8)]},
         ]
+        cases += self.hardening_cases()
         return cases
+
+    def hardening_cases(self):
+        """the input shapes of HARDENING.md, one family per item"""
+        fr = self.frames()
+        adv = lambda dt: {"op": "adv", "dt": dt}
+        pk = lambda i, port=1: {"op": "pkt", "frame": fr[i], "port": port}
+        sw = {"op": "sweep"}
+        fs = lambda m=M_ALL, port=NONE: {"op": "fstats", "m": m, "out_port": port}
+        ags = lambda m=M_ALL, port=NONE: {"op": "astats", "m": m, "out_port": port}
+        F = SEND_FLOW_REM
+        out = []
+        def add(ops, **kw):
+            out.append(dict({"max": 100, "ops": copy.deepcopy(ops)}, **kw))
+        # -- item 1: the same question twice with a change in between (lookup memo, "next expiry" shortcut, cached stats)
+        between = [[fm(ADD, M_IP, 100, acts=ACTS[2], cookie=2)], [fm(ADD, M_ARP, 100, acts=ACTS[2], cookie=2)], [fm(ADD, M_INPORT1, 0xffff, acts=ACTS[3], cookie=2)],
+                   [fm(MODIFY, M_ALL, 10, acts=ACTS[3], cookie=3)], [fm(MODIFY_STRICT, M_ALL, 10, acts=ACTS[4], cookie=3)], [fm(MODIFY, M_IP, 10, acts=ACTS[2])],
+                   [fm(DELETE, M_ALL)], [fm(DELETE_STRICT, M_ALL, 10)], [fm(DELETE, M_ALL, out_port=1)], [fm(DELETE, M_ALL, out_port=3)],
+                   [fm(ADD, M_ALL, 10, acts=ACTS[2], cookie=4)], [adv(1000), sw], [adv(875), sw], [fm(DELETE_STRICT, M_ALL, 11)]]
+        for (i, port) in ((0, 1), (3, 3), (1, 2)):
+            for b in between:
+                add([fm(ADD, M_ALL, 10, F, acts=ACTS[1], idle=1, cookie=1), pk(i, port), pk(i, port)] + b + [pk(i, port), pk(i, port), fs()])
+                add([fs(), fm(ADD, M_ALL, 10, F, acts=ACTS[1], cookie=1), fs(), ags(), pk(i, port), fs(), ags()] + b + [fs(), ags(), fs(M_ALL, 2)])
+            # a miss remembered, then a flow arrives; a hit remembered, then the flow leaves and comes back
+            add([pk(i, port), pk(i, port), fm(ADD, M_ALL, 10, acts=ACTS[1], cookie=1), pk(i, port), fm(DELETE, M_ALL), pk(i, port),
+                 fm(ADD, M_ALL, 10, acts=ACTS[2], cookie=2), pk(i, port)], bufs=2)
+        # "next expiry": a later flow, a touch, a MODIFY or a replacement moves the earliest deadline in either direction
+        for (i1, h1, i2, h2) in itertools.product((0, 1, 3), (0, 2), (0, 1, 2), (0, 1, 3)):
+            for touch in ([], [pk(0)]):
+                add([fm(ADD, M_IP, 100, F, idle=i1, hard=h1, cookie=1), adv(500)] + touch + [fm(ADD, M_ARP, 10, F, idle=i2, hard=h2, cookie=2), adv(625), sw, adv(500), sw,
+                    adv(500), sw] + touch + [adv(1000), sw, adv(2000), sw, fs()])
+        for repl in (fm(ADD, M_IP, 100, F, idle=1, cookie=2), fm(ADD, M_IP, 100, F, hard=5, cookie=2), fm(MODIFY, M_IP, 100, F, idle=1, hard=1, cookie=2),
+                     fm(DELETE_STRICT, M_IP, 100)):
+            add([fm(ADD, M_IP, 100, F, hard=3, cookie=1), fm(ADD, M_ARP, 10, F, hard=4, cookie=3), adv(1000), repl, adv(1125), sw, adv(1000), sw, adv(1000), sw, adv(2000), sw])
+        # -- item 2: one MODIFY gives several flows the same action list; changing one of them later must not change the others
+        three = [fm(ADD, M_IP, 100, F, acts=ACTS[1], cookie=1), fm(ADD, M_ARP, 50, F, acts=ACTS[2], cookie=2), fm(ADD, M_NET8, 70, F, acts=ACTS[4], cookie=3)]
+        for later in ([fm(MODIFY_STRICT, M_IP, 100, acts=ACTS[5])], [fm(MODIFY, M_ARP, 0, acts=ACTS[6])], [fm(MODIFY, M_IP, 0, acts=[]), fm(MODIFY_STRICT, M_NET8, 70, acts=ACTS[2])],
+                      [fm(ADD, M_IP, 100, acts=ACTS[6], cookie=4)], [fm(DELETE, M_IP), fm(MODIFY, M_ARP, 0, acts=ACTS[1])]):
+            add(three + [fm(MODIFY, M_ALL, 0, acts=ACTS[3]), fs()] + later + [fs(), pk(0), pk(3, 3), fs(M_ALL, 2), fs(M_ALL, 3), fm(DELETE, M_ALL, out_port=3), fs()])
+        # -- item 3: rare values
+        ms = [M_ALL, M_IP, M_NET8, M_TCP80, M_INPORT1, M_DST2]
+        for order in ([0, 65535, 32768, 1, 32767, 65534], [32768, 32767, 0, 65535, 1, 65534], [65535, 65534, 32768, 32767, 1, 0]):
+            adds = [fm(ADD, ms[j], p, F, acts=ACTS[1 + j % 4], cookie=p + 1) for j, p in enumerate(order)]
+            add(adds + [pk(0), fs(), fm(DELETE_STRICT, M_ALL, 1), fm(DELETE_STRICT, ms[order.index(0)], 0), pk(0), fm(MODIFY_STRICT, ms[order.index(32768)], 32768, acts=ACTS[5]),
+                        fm(MODIFY_STRICT, ms[order.index(32768)], 32767, acts=ACTS[6]), fs(), fm(ADD, M_ALL, 0, CHECK_OVERLAP, cookie=7), fm(ADD, M_IP_B, 32768, CHECK_OVERLAP, cookie=8),
+                        fm(DELETE, M_IP, 0), fs()])
+            add([fm(ADD, M_IP, p, cookie=p + 1) for p in order] + [pk(0), fs(), fm(DELETE_STRICT, M_IP, 0), fm(DELETE_STRICT, M_IP, 32768), pk(0), fs()])
+        for ck in RARE_COOKIES:
+            add([fm(ADD, M_IP, 100, F, cookie=ck, hard=1), fs(), pk(0), fm(MODIFY, M_IP, 100, cookie=2 ** 64 - 1 - ck, acts=ACTS[2]), fs(), adv(1000), sw])
+            add([fm(ADD, M_IP, 0, F, cookie=ck), fm(ADD, M_ARP, 0, F, cookie=2 ** 64 - 1 - ck), fm(DELETE, M_ALL), fm(MODIFY_STRICT, M_IP, 5, cookie=ck), fs()])
+        for (idle, hard) in ((65535, 0), (0, 65535), (65535, 65535), (1, 65535), (65535, 1)):
+            big = 65535000
+            add([fm(ADD, M_IP, 100, F, idle=idle, hard=hard, cookie=1), adv(875), sw, adv(125), sw, pk(0), adv(big - 1125), sw, adv(125), sw, adv(1000), sw, adv(big), sw, fs()])
+        acts_for = [[[0, 0, 0]], [[0, P_FLOOD, 0]], [[0, P_IN_PORT, 0]], [[0, P_ALL, 0]], [[0, CONTROLLER, 64]], [[0, P_LOCAL, 0]], [[0, 2, 0], [0, 0, 0]], []]
+        install = [fm(ADD, ms[j % len(ms)], 20 + j, F, acts=a, cookie=j + 1) for j, a in enumerate(acts_for)]
+        for q in RARE_PORTS + [2]:
+            add(install + [fs(M_ALL, q), ags(M_ALL, q), fm(MODIFY, M_ALL, 0, out_port=q, acts=ACTS[3]), fm(DELETE_STRICT, M_ALL, 20, out_port=q), fm(DELETE, M_ALL, out_port=q), fs()])
+            add(install + [fm(DELETE_STRICT, ms[6 % len(ms)], 26, out_port=q), fm(DELETE, M_IP, out_port=q), fs(M_ALL, NONE)])
+        add(install + [pk(0), pk(0, 2), pk(3, 3), pk(1, 4)], bufs=3)
+        # a table exactly full: replacing is allowed, anything that needs a slot is refused, one DELETE frees exactly one slot
+        for cap in (0, 1, 3):
+            fill = [fm(ADD, ms[j], 10 + j, F, cookie=j + 1) for j in range(cap)]
+            add(fill + [fm(ADD, M_ARP, 50, cookie=9), fm(MODIFY, M_ARP, 50, cookie=10), fm(MODIFY_STRICT, M_ARP, 50, cookie=11)] +
+                ([fm(ADD, ms[0], 10, cookie=12, acts=ACTS[2]), fm(ADD, ms[0], 10, CHECK_OVERLAP, cookie=13), fm(DELETE_STRICT, ms[0], 10), fm(ADD, M_ARP, 50, cookie=14),
+                  fm(ADD, M_DST16, 50, cookie=15), fs()] if cap else [fs()]), max=cap)
+            add([pk(3, 3)] + fill + [fm(ADD, M_ARP, 50, acts=ACTS[2], cookie=9, buf=1), pk(3, 3), fs()], max=cap)      # refused ADD and its buffer
+        # -- item 5: several things at one instant
+        for dt in (1000, 1125, 2000, 2125):
+            for touch in ([], [pk(0)], [pk(3, 3)]):
+                add([fm(ADD, M_IP, 50, F, idle=1, cookie=1), fm(ADD, M_ARP, 90, F, hard=1, cookie=2), fm(ADD, M_NET8, 70, F, idle=2, hard=1, cookie=3), fm(ADD, M_ALL, 5, F, cookie=4),
+                     fm(ADD, M_TCP80, 60, 0, idle=1, hard=2, cookie=5), fm(ADD, M_DST2, 80, F, idle=2, hard=2, cookie=6), adv(500)] + touch + [adv(dt - 500), sw, fs(), sw, adv(1000), sw])
+        for (idle, hard) in ((1, 2), (2, 1), (1, 1), (2, 2), (1, 3)):
+            for touch in ([], [adv(500), pk(0), adv(500), pk(0)]):                    # both deadlines of one flow pass between two sweeps: ONE message
+                add([fm(ADD, M_IP, 100, F, idle=idle, hard=hard, cookie=1), sw] + touch + [adv(3125), sw, sw, fs()])
+        bt = lambda *ops: {"op": "batch", "ops": [copy.deepcopy(o) for o in ops]}
+        a1, a2, a3 = fm(ADD, M_IP, 100, F, cookie=1, acts=ACTS[1]), fm(ADD, M_ARP, 50, F, cookie=2, acts=ACTS[2]), fm(ADD, M_IP, 100, F | CHECK_OVERLAP, cookie=3)
+        add([bt(a1, a2, a3), pk(0), bt(fm(DELETE, M_IP), a1, fm(DELETE_STRICT, M_ARP, 50), fm(MODIFY, M_ALL, 0, acts=ACTS[3])), fs()])
+        add([bt(a1, fm(DELETE, M_ALL), a1, fm(DELETE, M_ALL)), bt(a2, fm(ADD, M_ARP, 50, CHECK_OVERLAP, cookie=4), fm(7, M_ALL), fs(), fm(DELETE, M_ALL, out_port=2), ags()), bt()])
+        add([bt(a1, a2), adv(1000), bt(fm(ADD, M_NET8, 70, F, hard=1, cookie=5), fm(MODIFY, M_IP, 100, acts=ACTS[4])), adv(1000), sw, bt(fm(DELETE, M_ALL), fs())], max=2)
+        # -- items 1/2 (two instances in one process) and 4 (the other calling convention): the same histories again
+        n = len(out)
+        for j in range(0, n, 3): out.append(dict(copy.deepcopy(out[j]), decoy=True))
+        for j in range(1, n, 3): out.append(dict(copy.deepcopy(out[j]), no_data=True))
+        return out
 
     def rand_op(self, rng, tier):
         r = rng.random()
@@ -755,15 +880,25 @@ class C04(Check):
             base = MATCHES if (self.cfg[6] or not self._ecn_case) else [m for m in MATCHES if m is not M_EXACT]   # see generate()
             pool = (base + ([M_ARP_EXACT] if self.cfg[5] else []) + ([M_ALL_RAWIP] if self.cfg[4] else []) +   # input classes of D26 / D38 /
                     ([M_TOS0, M_TOS2] if self.cfg[6] else []))                                                  # D36 once repaired
-            return fm(cmd, rng.choice(pool), rng.choice(PRIOS), flags,
-                      out_port=(rng.choice([NONE, NONE, 2, 3, 4]) if cmd in (DELETE, DELETE_STRICT) else rng.choice([NONE, 2])),
+            rare = rng.random() < 0.12
+            return fm(cmd, rng.choice(pool), rng.choice(RARE_PRIOS if rare else PRIOS), flags,
+                      out_port=(rng.choice(RARE_PORTS if rare else [NONE, NONE, 2, 3, 4]) if cmd in (DELETE, DELETE_STRICT) else rng.choice([NONE, 2, 0])),
                       acts=(ACTS[rng.choice(BUF_ACTS)] if buf is not None else rng.choice(ACTS)), idle=rng.choice([0, 0, 1, 2, 3]),
-                      hard=rng.choice([0, 0, 1, 3, 5]), cookie=rng.randint(0, 2 ** 64 - 1), buf=buf)
+                      hard=rng.choice([0, 0, 1, 3, 5]), cookie=(rng.choice(RARE_COOKIES) if rare else rng.randint(0, 2 ** 64 - 1)), buf=buf)
         if r < 0.7:      # incl. the ECN-marked frame when the history may carry one
             return {"op": "pkt", "frame": rng.choice(fr[:6] if (self.cfg[6] or self._ecn_case) else fr[:5]), "port": rng.choice([1, 1, 2, 3])}
         if r < 0.82: return {"op": "adv", "dt": rng.choice([125, 500, 875, 1000, 1125, 2000, 3125])}
         if r < 0.93: return {"op": "sweep"}
-        return {"op": rng.choice(["fstats", "astats"]), "m": rng.choice([M_ALL, M_ALL, M_IP, M_NET8, M_INPORT1]), "out_port": rng.choice([NONE, NONE, 2, 3])}
+        return {"op": rng.choice(["fstats", "astats"]), "m": rng.choice([M_ALL, M_ALL, M_IP, M_NET8, M_INPORT1]), "out_port": rng.choice([NONE, NONE, 2, 3, 0, CONTROLLER])}
+
+    def rand_batch(self, rng, tier):
+        """several controller messages in one read (flow-mods without buffer, statistics requests)"""
+        ops = []
+        while len(ops) < rng.choice([2, 2, 3, 4]):
+            o = self.rand_op(rng, tier)
+            if o["op"] == "fm": o["buf"] = None; ops.append(o)
+            elif o["op"] in ("fstats", "astats"): ops.append(o)
+        return {"op": "batch", "ops": ops}
 
     def generate(self, rng, tier):
         if tier == "thorough":            # all histories of length 4 over the 14-event alphabet
@@ -777,7 +912,10 @@ class C04(Check):
             # clause): such histories either carry ECN-marked frames and no ToS-comparing flow, or the other way round
             self._ecn_case = rng.random() < 0.5
             case = {"max": rng.choice([100, 100, 100, 2, 3, 5]), "bufs": rng.choice([100, 100, 0, 1, 2, 3]),
-                    "ops": [self.rand_op(rng, tier) for _ in range(L)]}
+                    "ops": [(self.rand_batch(rng, tier) if rng.random() < 0.06 else self.rand_op(rng, tier)) for _ in range(L)]}
+            mode = rng.random()
+            if mode < 0.12: case["decoy"] = True            # a second switch in the same process gets the same events in another order
+            elif mode < 0.22: case["no_data"] = True        # rx_packet(packet, port) without the packed bytes
             yield case
 
 
